@@ -128,6 +128,11 @@ func concatMaps(ms reflect.Value) (reflect.Value, error) {
 			}
 
 			val := m.MapIndex(key)
+			if val.Kind() == reflect.Interface && val.IsNil() {
+				// a nil value carries nothing to concat: keep the key, add no element
+				rms.SetMapIndex(key, vals)
+				continue
+			}
 			vals = reflect.Append(vals, val)
 			rms.SetMapIndex(key, vals)
 		}
@@ -137,6 +142,11 @@ func concatMaps(ms reflect.Value) (reflect.Value, error) {
 		vals := rms.MapIndex(key)
 
 		anyVals := vals.Interface().([]any)
+		if len(anyVals) == 0 {
+			// every chunk had a nil value under this key
+			ret.SetMapIndex(key, reflect.Zero(typ.Elem()))
+			continue
+		}
 		v, err := toSliceValue(anyVals)
 		if err != nil {
 			return reflect.Value{}, err
